@@ -630,6 +630,33 @@ def c19() -> List[M]:
     ]
 
 
+
+def scan() -> List[M]:
+    """Single-point mutants found undetected by tools/mutscan.py (the suite passes on each of them) and the rules added
+    for them."""
+    return [
+        M("C19", "scan-es-power-100-rejected", ES, "            if eco_mode_power < 0 or eco_mode_power > 100:", "            if eco_mode_power < 0 or eco_mode_power >= 100:", "C19.R8"),
+        M("C19", "scan-et-soc-0-rejected", ET, "            if eco_mode_soc < 0 or eco_mode_soc > 100:", "            if eco_mode_soc <= 0 or eco_mode_soc > 100:", "C19.R8"),
+        M("C19", "scan-dt-export-limit-0-ignored", DT, "        if export_limit >= 0:", "        if export_limit > 0:", "C19.R8"),
+        M("C19", "scan-et-power-0-rejected-is-fine", ET, "            if eco_mode_power < 0 or eco_mode_power > 100:", "            if eco_mode_power <= 0 or eco_mode_power > 100:", "clean"),
+        M("C19", "scan-es-switch-offset", ES, 'ByteH("eco_mode_1_switch", 1796,', 'ByteH("eco_mode_1_switch", 1797,', "C19.R3"),
+        M("C19", "scan-discharge-recogniser-excludes-1", S, "            and self.power > 0 \\", "            and self.power > 1 \\", "C19.R4"),
+        M("C17", "scan-es-known-setting-not-written", ES, "            await self._write_setting(setting, value)\n", "            pass\n", "C17.R4"),
+        M("C17", "scan-dt-modbus-write-register-parse", DT, "self._write_command(int(setting_id[7:]), int(value))", "self._write_command(int(setting_id[8:]), int(value))", "C17.R4"),
+        M("C14", "scan-et-modbus-read-unsigned", ET, "            response = await self._read_from_socket(self._read_command(int(sensor_id[7:]), 1))\n            return int.from_bytes(response.read(2), byteorder=\"big\", signed=True)",
+          "            response = await self._read_from_socket(self._read_command(int(sensor_id[7:]), 1))\n            return int.from_bytes(response.read(2), byteorder=\"big\", signed=False)", "C14.R2"),
+        M("C14", "scan-dt-modbus-read-one-byte", DT, "            response = await self._read_from_socket(self._read_command(int(setting_id[7:]), 1))\n            return int.from_bytes(response.read(2),",
+          "            response = await self._read_from_socket(self._read_command(int(setting_id[7:]), 1))\n            return int.from_bytes(response.read(1),", "C14.R2"),
+        M("C14", "scan-dt-modbus-read-register-parse", DT, "self._read_command(int(sensor_id[7:]), 1)", "self._read_command(int(sensor_id[8:]), 1)", "C14.R2"),
+        M("C14", "scan-et-modbus-read-two-registers", ET, "self._read_command(int(setting_id[7:]), 1)", "self._read_command(int(setting_id[7:]), 2)", "C14.R2"),
+        M("C14", "scan-dt-modbus-read-swapped-args", DT, "self._read_command(int(sensor_id[7:]), 1)", "self._read_command(1, int(sensor_id[7:]))", "C14.R2"),
+        M("C02", "scan-execute-result-test-negated", P, "            if result is not None:\n                return ProtocolResponse(result, self)", "            if result is None:\n                return ProtocolResponse(result, self)", "C02.R8"),
+        M("C02", "scan-tcp-multi-count-doubled", P, "            create_modbus_tcp_multi_request(comm_addr, MODBUS_WRITE_MULTI_CMD, offset, values),\n            MODBUS_WRITE_MULTI_CMD, offset, len(values) // 2)",
+          "            create_modbus_tcp_multi_request(comm_addr, MODBUS_WRITE_MULTI_CMD, offset, values),\n            MODBUS_WRITE_MULTI_CMD, offset, len(values) * 2)", "C02.R5"),
+        M("C04", "scan-retry-reset-to-minus-one", P, "            logger.debug(\"Response already received.\")\n            self._retry = 0", "            logger.debug(\"Response already received.\")\n            self._retry = -1", "C04.R4"),
+        M("C16", "scan-dt-id-map-never-built", DT, "        self._sensors_map = {s.id_: s for s in self.sensors()}\n        return self._sensors_map.get(sensor_id)", "        return self._sensors_map.get(sensor_id)", "C16.R5"),
+    ]
+
 def seeded() -> List[M]:
     """The changes kept under /verif/seeded: every breaking change written by an independent sub-agent must be reported
     by the checks recorded as detecting it; every behaviour-preserving refactoring must leave all 20 checks silent."""
@@ -660,5 +687,6 @@ def corpus() -> List[M]:
     for name, fn in sorted(globals().items()):
         if len(name) == 3 and name[0] == "c" and name[1:].isdigit() and callable(fn):
             out.extend(fn())
+    out.extend(scan())
     out.extend(seeded())
     return out
